@@ -768,6 +768,65 @@ def declared_everywhere(F, res, rule="Q6"):
            "declaration), not from the name-indexed value table", "ModuleScope::declarations" in cs and "ModuleScope::values" not in cs,
            where=dq[0].loc(), how="enumerates through %s" % sorted(c for c in cs if c.startswith("ModuleScope::")))
 
+    every_declaration_reaches_the_groups(F, res, rule)
+
+
+CHAIN_OK = ("flatten", "flat_map", "filter_map", "map", "filter", "copied", "cloned", "into_iter", "iter", "collect", "for_each", "enumerate", "by_ref",
+            "peekable", "inspect", "extend", "from_iter", "deref", "as_ref", "as_slice", "values", "clone")
+SELECTORS = ("first", "last", "get", "nth", "next", "next_back", "take", "skip", "find", "find_map", "position", "rposition", "max", "max_by", "max_by_key",
+             "min", "min_by", "min_by_key", "split_first", "split_last", "pop", "take_while", "skip_while", "step_by", "nth_back", "get_index", "swap_remove")
+
+
+def every_declaration_reaches_the_groups(F, res, rule="Q6"):
+    """Q6 (third part): `ModuleScope::declarations()` answers one LIST per name - two functions with one name are two entries of one
+    list. dependency_order_query must hand every entry of every list to the grouping: between the call of declarations() and the
+    collection of the file's functions the iterator passes only adaptors that keep every element (flatten, map, filter_map on the
+    kind of the definition, ..) - none that selects (first / last / next outside a loop / nth / take / skip / take_while / max ..),
+    and the closures handed to those adaptors do not select an element of their item either. `filter_map(|decls| decls.first())`
+    drops the later duplicates: they belong to no group and infer_function_query's `expect` panics in every query that needs one."""
+    f = F.fns.get("ide::def::scope::dependency_order_query")
+    if f is None or not f.blocks:
+        res.anchor_missing(rule, "ide::def::scope::dependency_order_query")
+        return
+    d = FL.Defs(f)
+    calls = list(f.calls())
+    start = [b for b, t in calls if FL.short(callee(t) or callee_def(t) or "") == "ModuleScope::declarations"]
+    chain = set(start)
+    changed = True
+    while changed:
+        changed = False
+        for b, t in calls:
+            if b in chain or not t["args"]:
+                continue
+            o = d.origin_op(t["args"][0], ("Deref>::deref", "IntoIterator>::into_iter", "::by_ref"))
+            srcs = [o] if o.get("k") != "multi" else [{"k": "call", "bb": dd[0]} for dd in o.get("defs", []) if dd[2] == "call"]
+            if any(x.get("k") == "call" and x.get("bb") in chain for x in srcs):
+                chain.add(b)
+                changed = True
+    loops = [f.natural_loop(tl, hd) for tl, hd in f.back_edges()]
+    bad, names = [], []
+    for b, t in calls:
+        if b not in chain or b in start:
+            continue
+        nm = FL.short(callee(t) or callee_def(t) or "").rsplit("::", 1)[-1]
+        names.append(nm)
+        if nm == "next" and any(b in lp for lp in loops):
+            continue
+        if nm not in CHAIN_OK:
+            bad.append("%s (line %s)" % (nm, t["ln"]))
+        # the closure handed to the adaptor
+        for a in t["args"][1:]:
+            oa = d.origin_op(a) if isinstance(a, dict) and "k" not in a else {}
+            if oa.get("k") == "agg" and oa["rv"].get("closure") in F.fns:
+                cf = F.fns[oa["rv"]["closure"]]
+                for _b2, t2 in cf.calls():
+                    n2 = FL.short(callee(t2) or callee_def(t2) or "").rsplit("::", 1)[-1]
+                    if n2 in SELECTORS:
+                        bad.append("%s inside the closure of %s (line %s)" % (n2, nm, t2["ln"]))
+    res.ob(rule, "groups-over-every-declaration", "every entry of every per-name list of ModuleScope::declarations() reaches the grouping of "
+           "dependency_order_query: the iterator passes no selecting adaptor and no closure that picks an element of its item", bool(start) and
+           len(chain) > len(start) and not bad, where=f.loc(), how="adaptors after declarations(): %s" % names if not bad else "selecting: %s" % bad)
+
 
 # ---- Q9: no child is descended into twice
 THROUGH = ("Clone>::clone", "Deref>::deref", "::iter", "IntoIterator>::into_iter", "Iterator>::next", "::get", "::first", "::last",
